@@ -114,7 +114,7 @@ def part_probe(res, binary, seed):
             sig = f"stateful-functor-crash {api} {opt}" if sr.verdict.startswith("rank-failed") else f"stateful-functor-state-differs {api} {opt}"
             res.oracle_failures.append({
                 "what": f"{api} with a 16-byte trivially copyable function object, build {opt}, {n}x{p} {routing}: {sr.verdict}; handler output {got[:4]} "
-                        "(remote_dispatch_lambda in pack_lambda_generic passes `*pl` with pl == nullptr to a by-value `Lambda l` parameter)",
+                        "(on the pinned tree: remote_dispatch_lambda in pack_lambda_generic passes `*pl` with pl == nullptr to a by-value `Lambda l` parameter)",
                 "signature": sig, "case": {"part": "probe", "api": api, "opt": opt, "nodes": n, "ppn": p, "routing": routing, "seed": seed, "verdict": sr.verdict}})
     return ok_bcast
 
@@ -188,9 +188,11 @@ def part_archive(res, binary, tier, seed, model_ok, only=None):
         def do_load(ls):
             return run_archive(binary, "load", seed, big, ls, tmpd)
 
+        load_crashed = False
         for tag, ls in (("real", real_lines), ("model", model_lines)):
             for sr in C.pmap(do_load, [c for c in [ls[i::8] for i in range(8)] if c]):
                 if sr.verdict != "ok":
+                    load_crashed = True
                     res.oracle_failures.append({"what": f"real input archive crashed reading {tag} bytes: {sr.verdict}", "signature": f"archive-load-crash-{tag}",
                                                 "case": {"part": "archive", "seed": seed, "tier": tier, "stderr": sr.stderr[-400:]}})
                 for l in sr.outs.get(0, []):
@@ -206,7 +208,10 @@ def part_archive(res, binary, tier, seed, model_ok, only=None):
             res.distinct.add((c["shape"], c["cls"]))
             res.count("archive:" + c["cls"])
             got = loaded.get(("real", k))
-            if got != ["1", "1"]:
+            if got is None:
+                if not load_crashed:
+                    res.corr_failures.append({"relation": "check-machinery", "what": f"no load result for archive case {k}", "case": case})
+            elif got != ["1", "1"]:
                 res.oracle_failures.append({"what": f"value of type '{ty}' does not survive YGMOutputArchive -> YGMInputArchive (equal,empty)={got}",
                                             "signature": "archive-roundtrip " + ty.split()[0], "case": case})
             if not model_ok:
@@ -219,7 +224,7 @@ def part_archive(res, binary, tier, seed, model_ok, only=None):
                 res.corr_failures.append({"relation": "Wire.ser == bytes of cereal::YGMOutputArchive", "what": f"bytes differ for type '{ty}' (len real {len(hx)//2} model {len(m[0])//2})",
                                           "case": dict(case, model_bytes=m[0][:300])})
                 g2 = loaded.get(("model", k))
-                if g2 != ["1", "1"]:
+                if g2 is not None and g2 != ["1", "1"]:
                     res.corr_failures.append({"relation": "YGMInputArchive reads Wire.ser's bytes back to the value", "what": f"(equal,empty)={g2}", "case": case})
             if m[1] != "1":
                 res.corr_failures.append({"relation": "Wire.des t (Wire.ser v ++ rest) = (v, rest) on the generated value", "what": "model round trip failed", "case": case})
